@@ -249,6 +249,19 @@ func (s *njSess) reads(uuid string) map[string]string {
 // compare the in-memory head with its committed parent (store path) holding identical data
 func (s *njSess) snapshotCompare() {
 	parent := s.head
+	// numbers with an integral value written in float or exponent notation (the head keeps what the JSON decoder
+	// gave it, the store keeps the re-encoded text): posted as raw text, outside the model comparison
+	if len(s.ids) > 0 && s.r.Chance(0.6) {
+		for k := 0; k < 1+s.r.Intn(2); k++ {
+			id := s.ids[s.r.Intn(len(s.ids))]
+			f := []string{"group", "extra", "group"}[s.r.Intn(3)]
+			v := fmt.Sprintf([]string{"%d.0", "%de0", "%d.00"}[s.r.Intn(3)], s.r.Intn(4))
+			body := fmt.Sprintf(`{"bodyid":%d,%q:%s}`, id, f, v)
+			r := Post(fmt.Sprintf("node/%s/nj/key/%d?u=alice", parent, id), []byte(body))
+			s.log("POST key/%d %s -> %d", id, body, r.Code)
+			s.c.Count("post: integral number in float notation")
+		}
+	}
 	if r := Commit(parent); !r.OK() {
 		s.c.Report("H", "C16 commit", r.String(), s.history())
 		return
